@@ -256,12 +256,42 @@ func checkParseStringStep(c *Ctx, u *Universe, typeConsts map[string]int64) {
 		R.undecided("C13.step", "pkg/syntax/zh.parseString", pos, "scanning loop not found")
 		return
 	}
-	quoteNumObj := findLocal(info, fd, "quoteNum")
-	literalObj := findLocal(info, fd, "literal")
-	tkTypeObj := findLocal(info, fd, "tkType")
-	schObj := findLocal(info, fd, "sch")
+	// roles, not names: nesting depth = the local the loop increments; collected text = the local rune slice the loop
+	// appends to; token kind = the local returned as the token's Type; opening quote = the local read from
+	// GetCurrentChar() before the loop
+	var quoteNumObj, literalObj, tkTypeObj, schObj types.Object
+	if cv := counterVars(info, body); len(cv) == 1 {
+		quoteNumObj = cv[0]
+	}
+	literalObj = selfAppendedLocal(info, body)
+	ast.Inspect(fd, func(n ast.Node) bool {
+		switch x := n.(type) {
+		case *ast.ReturnStmt:
+			for _, r := range x.Results {
+				if cl, ok := ast.Unparen(r).(*ast.CompositeLit); ok {
+					for _, el := range cl.Elts {
+						if kv, ok := el.(*ast.KeyValueExpr); ok {
+							if id, ok := kv.Key.(*ast.Ident); ok && id.Name == "Type" {
+								if o := identObj(info, kv.Value); o != nil {
+									tkTypeObj = o
+								}
+							}
+						}
+					}
+				}
+			}
+		}
+		return true
+	})
+	for _, v := range localsInOrder(info, fd) {
+		for _, def := range definitionsOf(info, fd, v) {
+			if call, ok := ast.Unparen(def).(*ast.CallExpr); ok && funcID(calleeFunc(info, call)) == "pkg/syntax.Lexer.GetCurrentChar" && schObj == nil && def.Pos() < loop.Pos() {
+				schObj = v
+			}
+		}
+	}
 	if quoteNumObj == nil || literalObj == nil || tkTypeObj == nil || schObj == nil {
-		R.undecided("C13.step", "pkg/syntax/zh.parseString", pos, "quoteNum / literal / tkType / sch not found")
+		R.undecided("C13.step", "pkg/syntax/zh.parseString", pos, "nesting counter / collected text / token kind / opening quote variables not identifiable")
 		return
 	}
 	allQuotes := []rune{}
@@ -414,29 +444,40 @@ func checkBacktickMachine(c *Ctx, u *Universe) {
 	info := p.TypesInfo
 	pos := u.pos(fd.Pos())
 	body, _ := findMachineLoop(fd)
-	stateObj := findLocal(info, fd, "state")
-	hexObj := findLocal(info, fd, "hexCount")
-	bufObj := findLocal(info, fd, "literalBuffer")
-	var srcObj types.Object
+	// roles, not names: state = the local assigned only local constants; hex-digit counter = the local the loop
+	// increments; buffer of consumed characters = the local rune slice the loop appends to; the text collected so
+	// far = the rune-slice parameter
+	var stateObj, hexObj, bufObj, srcObj types.Object
+	if sv := stateLikeVars(info, fd); len(sv) == 1 {
+		stateObj = sv[0]
+	}
+	if body != nil {
+		if cv := counterVars(info, body); len(cv) == 1 {
+			hexObj = cv[0]
+		}
+		bufObj = selfAppendedLocal(info, body)
+	}
 	for _, f := range fd.Type.Params.List {
 		for _, nm := range f.Names {
-			if nm.Name == "srcLiteral" {
+			if _, isSlice := info.TypeOf(f.Type).Underlying().(*types.Slice); isSlice {
 				srcObj = info.Defs[nm]
 			}
 		}
 	}
 	if body == nil || stateObj == nil || hexObj == nil || bufObj == nil || srcObj == nil {
-		R.undecided("C13.escape", "pkg/syntax/zh.unescapeBackTickSpecialStr", pos, "machine variables not found")
+		R.undecided("C13.escape", "pkg/syntax/zh.unescapeBackTickSpecialStr", pos, "machine variables not identifiable (state / hex counter / consumed-characters buffer / collected text)")
 		return
 	}
-	states := localIntConsts(info, fd)
-	begin, ok := states["sBegin"]
+	var begin int64
+	ok := false
+	if defs := definitionsOf(info, fd, stateObj); len(defs) > 0 {
+		begin, ok = constInt(info, defs[0])
+	}
 	if !ok {
-		// initial value of `var state = …`
 		R.undecided("C13.escape", "pkg/syntax/zh.unescapeBackTickSpecialStr", pos, "initial state constant not found")
 		return
 	}
-	after := stmtsAfterLabel(fd, "UNDONE_end")
+	after := stmtsAfterLabel(fd, "")
 	if after == nil {
 		R.undecided("C13.escape", "pkg/syntax/zh.unescapeBackTickSpecialStr", pos, "keep-literal exit not found")
 		return
@@ -583,7 +624,7 @@ func checkBacktickMachine(c *Ctx, u *Universe) {
 							if strings.ContainsRune(got, unknownRune) && len([]rune(got)) == 1 {
 								// decoded: must be under the validity guard
 								as := strings.Join(o.St.assumed, " ; ")
-								if !(strings.Contains(as, "err == nil") && strings.Contains(as, "utf8.ValidRune(") && !strings.Contains(as, "!(err == nil)") && !strings.Contains(as, "!(utf8.ValidRune(")) {
+								if !(strings.Contains(as, "$error == nil") && strings.Contains(as, "utf8.ValidRune(") && !strings.Contains(as, "!($error == nil)") && !strings.Contains(as, "!(utf8.ValidRune(")) {
 									hexGuardOK = false
 								}
 							} else if got != consumed {
